@@ -334,3 +334,128 @@ def replay(rec):
     mk = REGISTRY[rec["cfg"]][1]
     rp = replay_stock(mk, [tuple_deep(c) for c in rec["trace"]])
     return dict(cfg=rec["cfg"], rule=rec["rule"], reproduced=rp["reproduced"], err=rp["err"], path=rp["path"], cycles=rp["cycles"])
+
+
+# ---------------------------------------------------------------------------------------------------
+# csr_bus.SRAM windows: CSR-mapped memories (word narrower / equal / wider than the bus, read-only, paged)
+# ---------------------------------------------------------------------------------------------------
+class SramDUT(Module):
+    def __init__(self, width, depth, busword, address, paging, read_only):
+        self.bus = csr_bus.Interface(data_width=busword, address_width=14)
+        self.mem = Memory(width, depth, init=[(0x11*(i + 1)) & ((1 << width) - 1) for i in range(depth)], name="m")
+        b1 = csr_bus.Interface(data_width=busword, address_width=14)
+        self.submodules.sram = sram = csr_bus.SRAM(self.mem, address, read_only=read_only, bus=b1, paging=paging)
+        buses = [b1]
+        self.page = None
+        csrs = sram.get_csrs()
+        if csrs:
+            b2 = csr_bus.Interface(data_width=busword, address_width=14)
+            self.submodules.bank = csr_bus.CSRBank(csrs, address=address + 1, bus=b2, paging=paging)
+            buses.append(b2)
+            self.page = csrs[0]
+        self.submodules.ic = csr_bus.Interconnect(self.bus, buses)
+
+
+class CsrSramHarness(Harness):
+    """env = (memory words, staged chunks, page, expected dat_r)"""
+    def __init__(self, name, width, depth, busword=8, address=0, paging=0x800, read_only=False):
+        self.name, self.width, self.depth, self.busword = name, width, depth, busword
+        self.address, self.paging, self.read_only = address, paging, read_only
+        self.nch = (width + busword - 1)//busword        # CSR words per memory word, most significant first
+        self.page_words = paging//4
+        self.cov = set()
+
+    def build(self):
+        self.dut = SramDUT(self.width, self.depth, self.busword, self.address, self.paging, self.read_only)
+        return self.dut
+
+    def bind(self, D):
+        d = self.dut
+        self.adr, self.we, self.re = D.i(d.bus.adr), D.i(d.bus.we), D.i(d.bus.re)
+        self.dat_w, self.dat_r = D.i(d.bus.dat_w), D.i(d.bus.dat_r)
+        nwin = self.depth*self.nch
+        self.paged = d.page is not None
+        self.win = min(nwin, self.page_words) if self.paged else nwin
+        base = self.address*self.page_words
+        adrs = [base + i for i in range(self.win)] + [base + self.win] + [(self.address + 2)*self.page_words]
+        if self.paged:
+            adrs.append((self.address + 1)*self.page_words)          # the page register (bank at address+1, word 0)
+        self.adrs = sorted(set(a for a in adrs if a < (1 << 14)))
+        self.ops = [("idle",)] + [("w", a, k) for a in self.adrs for k in range(3)] + [("r", a) for a in self.adrs]
+        self.npages = (nwin + self.page_words - 1)//self.page_words
+        self.page_bits = (self.npages - 1).bit_length() if self.paged else 0
+
+    def env_init(self):
+        mem = tuple((0x11*(i + 1)) & ((1 << self.width) - 1) for i in range(self.depth))
+        return (mem, tuple(0 for _ in range(self.nch - 1)), 0, 0)
+
+    def choices(self, env):
+        return self.ops
+
+    def drive(self, v, env, ch):
+        v[self.we] = v[self.re] = 0
+        v[self.adr] = v[self.dat_w] = 0
+        if ch[0] == "w":
+            v[self.we], v[self.adr], v[self.dat_w] = 1, ch[1], pat(ch[2], self.busword)
+        elif ch[0] == "r":
+            v[self.re], v[self.adr] = 1, ch[1]
+
+    def observe(self, v, env, ch):
+        mem, staged, page, datr = env
+        if v[self.dat_r] != datr:
+            return env, ("read.dat_r", f"dat_r exp {datr:#x} got {v[self.dat_r]:#x} (chunk of the memory word addressed in the previous cycle, 0 if not selected)"), 0
+        adr = ch[1] if ch[0] in ("w", "r") else 0
+        sel_mem = adr // self.page_words == self.address
+        sel_pg = self.paged and adr // self.page_words == self.address + 1 and adr % self.page_words == 0
+        mem2, staged2, page2, datr2 = mem, staged, page, 0
+        bw = self.busword
+        if sel_mem:
+            off = adr % self.page_words
+            lin = page*self.page_words + off if self.paged else off
+            word, chunk = lin // self.nch, lin % self.nch          # chunk 0 = most significant
+            word %= (1 << (self.depth - 1).bit_length()) if self.depth > 1 else 1
+            if ch[0] == "w" and not self.read_only:
+                d = pat(ch[2], bw)
+                if chunk == self.nch - 1:
+                    full = d
+                    for k in range(self.nch - 1):
+                        full |= staged[k] << (bw*(self.nch - 1 - k))
+                    if word < self.depth:
+                        ml = list(mem)
+                        ml[word] = full & ((1 << self.width) - 1)
+                        mem2 = tuple(ml)
+                    self.cov.add("commit")
+                else:
+                    staged2 = staged[:chunk] + (d,) + staged[chunk + 1:]
+            if word < self.depth:
+                val = mem[word]
+                # a write in this cycle is visible to the read port one cycle later (write-first port)
+                if mem2 is not mem:
+                    val = mem2[word]
+                datr2 = (val >> (bw*(self.nch - 1 - chunk))) & ((1 << bw) - 1)
+            self.cov.add(("mem", ch[0]))
+        if sel_pg:
+            if ch[0] == "w":
+                page2 = pat(ch[2], bw) & ((1 << self.page_bits) - 1)
+            datr2 = page
+            self.cov.add("page")
+        return (mem2, staged2, page2, datr2), None, 0
+
+    def vacuity(self):
+        return None if ("mem", "w") in self.cov or self.read_only else "memory never written"
+
+
+SRAMS = {}
+for nm, tier, kw in [
+    ("csr.SRAM(8x4,bus8)", "quick", dict(width=8, depth=4)),
+    ("csr.SRAM(8x4,bus8,read_only)", "quick", dict(width=8, depth=4, read_only=True)),
+    ("csr.SRAM(16x2,bus8)", "quick", dict(width=16, depth=2)),
+    ("csr.SRAM(12x2,bus8)", "thorough", dict(width=12, depth=2)),
+    ("csr.SRAM(4x4,bus8,addr2)", "quick", dict(width=4, depth=4, address=2)),
+    ("csr.SRAM(32x2,bus32)", "quick", dict(width=32, depth=2, busword=32)),
+    ("csr.SRAM(1x8,bus8,paging=0x10)", "quick", dict(width=1, depth=8, paging=0x10)),
+    ("csr.SRAM(8x8,bus8,paging=0x10)", "thorough", dict(width=8, depth=8, paging=0x10)),
+    ("csr.SRAM(16x4,bus8,paging=0x10)", "thorough", dict(width=16, depth=4, paging=0x10)),
+]:
+    SRAMS[nm] = (tier, kw)
+    REGISTRY[nm] = (tier, (lambda nm=nm, kw=kw: CsrSramHarness(nm, **kw)))
